@@ -1,9 +1,40 @@
-(* resolve_flatten: the flat mirror of resolve_special_instrumentation + the emission loop computes exactly the
-   flattening of the tree-level lowering (TreeLower.lower), on the fragment of the simulation theorems:
-   no replacing mode, no semantic-after on branch instructions, no D15 shape. *)
+(* resolve_flatten: the flat mirror of resolve_special_instrumentation + the emission loop (Model/Lowering.v:
+   rloop / resolve / emit) computes exactly the flattening of the tree-level lowering (Model/TreeLower.v: lower),
+   the object of the simulation theorems Sim.sim_closed / SimFn.sim_fn.
+
+   Fragment ([frag F t]): no replacing mode anywhere ([nonrepl F]: f_alt = f_balt = None), and [okI F] on every node:
+   plain nodes carry non-structural operators (well-formedness of the tree; parse_body only produces such trees),
+   no semantic-after on a branch instruction, no block-exit on an `if` whose then-arm contains a block-like
+   instruction (the D15 shape).
+
+   Main results
+     resolve_flatten        emit (fst (resolve true [] [] ty (flatF F t ++ [(FEnd, F fe)]) loc))
+                              = flat (flat_map (lower F []) t) ++ f_before (F fe) ++ [FEnd],  locals unchanged
+                            (all trees of the fragment; node labels need not be positions: both sides read F at the labels)
+     parse_body_flat        parse_body ops = Some (t, fe) -> flatF F t ++ [(FEnd, F fe)] = flagged F 0 ops
+                            (the flagged flat body the pass really runs on), and t is well formed
+     resolve_flatten_sim    + Sim.sim_closed: the plain interpreter on the tree whose flattening is what the mirror
+                            emits reproduces every result of the specification interpreter on the original tree
+     model_flatten          CheckLow.model c = Some (flat (flat_map (lower F []) t) ++ f_before (F fe) ++ [FEnd], c_groups c)
+                            for cases of the fragment without entry / exit probes (F = CheckSem.flags_fn of the plan)
+     resolve_flatten_fn     function entry / exit probes: equality with flat (SimFn.fn_tree ..) ++ [FEnd], up to the
+                            documented rotation of instruction 0's before-code in front of the wrapper's opener
+     resolve_flatten_fn_sim + SimFn.sim_fn;   model_flatten_fn: the same for CheckLow.model.
+     resolve_flatten_real   the real placement, no rotation: emitted = flat (SimFnReal.real_tree (with0 entry F) X ty t fe) ++ [FEnd]
+                            for every parsed non-empty body, any entry / exit probes
+     parse_body_positions   parse_body discharges the position hypotheses of SimFnReal.sim_fn_real (head_at_0, ...)
+     resolve_flatten_real_sim  + SimFnReal.sim_fn_real
+     model_flatten_real     CheckLow.model c = Some (tie_body ..): literally the body CheckSem.tree_tie compares with
+     tree_tie_of_model      whenever the observed body is the model's body, CheckSem.tree_tie accepts the case
+                            (the second per-case tie follows from the first).
+
+   Technique: induction on the tree (instr_ind2), generalised over the depth (block stack = stack_of d), the pending
+   r_ron entries of enclosing constructs ([fresh d m]: no key >= d), r_roe, and the exit probes X; one step lemma per
+   structural operator (step_open3 / step_if3 / step_else3 / step_end3 / step_plain3) on [rstep3] = rstep after the
+   entry / exit stages; [ent d B A m] is the canonical form of the construct's own r_ron entry. *)
 From Coq Require Import List Arith NArith ZArith Bool Lia.
 Import ListNotations.
-From Orca Require Import Util Flat Lowering Tree TreeLower WasmP EvalP Sim SimFn Commute CheckLow LowPlain LowAlt CheckSem Idem.
+From Orca Require Import Util Flat Lowering Tree TreeLower WasmP EvalP Sim SimFn Peel SimFnReal Commute CheckLow LowPlain LowAlt CheckSem Idem.
 
 Local Arguments flag_stage : simpl never.
 Local Arguments stack_of : simpl never.
@@ -924,3 +955,723 @@ Proof.
     rewrite (Idem.resolve_idempotent _ _ _ Hq) in R1, R2. cbn [fst snd] in R1.
     unfold resolve. cbn [negb]. rewrite R1. reflexivity.
 Qed.
+
+(* ------------------------------------------------------------------------------------------ *)
+(* Extension: function entry / exit probes.  The pass files the entry code (and, with exit probes, the opener
+   of the wrapper block) as before-code of instruction 0. *)
+Lemma flag_stage_orig_before E op orig st w : flag_stage op (w_before E orig) st w = flag_stage op orig st w.
+Proof.
+  unfold flag_stage. cbn [w_before f_be f_bx f_sa].
+  destruct (has_instr orig) eqn:Hh.
+  - assert (H' : has_instr (w_before E orig) = true).
+    { unfold has_instr in *. cbn [w_before f_before f_after f_alt f_sa f_be f_bx f_balt].
+      destruct (f_before orig); [|reflexivity]. cbn [app]. cbn [is_nil negb orb] in Hh.
+      destruct E; cbn [is_nil negb orb]; [exact Hh|reflexivity]. }
+    rewrite H'. reflexivity.
+  - apply has_instr_false in Hh. destruct Hh as (_&_&_&Hs&Hb&Hx&_). rewrite Hs, Hb, Hx. cbn [is_nil negb].
+    destruct (has_instr (w_before E orig)); reflexivity.
+Qed.
+
+Lemma rstep3_orig_before E op orig st w : rstep3 op (w_before E orig) st w = rstep3 op orig st w.
+Proof.
+  destruct op; cbn [rstep3]; unfold block_alt_case; cbn [w_before f_balt]; rewrite ?flag_stage_orig_before; try reflexivity.
+  - (* else *) unfold resolve_roe. rewrite ?flag_stage_orig_before. reflexivity.
+  - (* end *)
+    destruct (r_stack st) as [|bid rest]; [rewrite ?flag_stage_orig_before; reflexivity|].
+    assert (K : forall st0 w0,
+      (let '(st1, w1) := resolve_roe st0 w0 in
+       let '(st2, w2) := match ron_get bid (r_ron st1) with
+                         | Some p => (set_ron (ron_remove bid (r_ron st1)) st1, resolve_pend2 p w1)
+                         | None => (st1, w1) end in
+       flag_stage FEnd (w_before E orig) st2 w2)
+      = (let '(st1, w1) := resolve_roe st0 w0 in
+       let '(st2, w2) := match ron_get bid (r_ron st1) with
+                         | Some p => (set_ron (ron_remove bid (r_ron st1)) st1, resolve_pend2 p w1)
+                         | None => (st1, w1) end in
+       flag_stage FEnd orig st2 w2)).
+    { intros st0 w0. unfold resolve_roe. destruct (ron_get bid _); rewrite flag_stage_orig_before; reflexivity. }
+    destruct (r_del (set_stack rest st)) as [dd|]; [|apply K].
+    destruct (Nat.eqb dd bid); [|reflexivity].
+    destruct (negb (r_retain (set_del None (set_stack rest st)))); [reflexivity|apply K].
+Qed.
+
+Lemma rstep_entry last op orig st E :
+  E <> [] -> r_entry st = E ->
+  rstep last 0 op orig st = rstep last 0 op (w_before E orig) (set_entry [] st).
+Proof.
+  intros HE He.
+  assert (L : rstep last 0 op orig st
+              = let '(st1, w1) :=
+                  if is_nil (r_exit st) then (set_entry [] st, w_before E orig)
+                  else if is_exit_op op then (set_entry [] st, w_before (r_exit st) (w_before E orig))
+                  else if Nat.eqb 0 last then (set_exit [] (set_entry [] st), w_before ([FEnd] ++ r_exit st) (w_before E orig))
+                  else (set_entry [] st, w_before E orig) in
+                rstep3 op orig st1 w1).
+  { unfold rstep. rewrite He. destruct E as [|e0 E0]; [congruence|]. cbn [is_nil negb andb Nat.eqb]. reflexivity. }
+  assert (R : rstep last 0 op (w_before E orig) (set_entry [] st)
+              = let '(st1, w1) :=
+                  if is_nil (r_exit st) then (set_entry [] st, w_before E orig)
+                  else if is_exit_op op then (set_entry [] st, w_before (r_exit st) (w_before E orig))
+                  else if Nat.eqb 0 last then (set_exit [] (set_entry [] st), w_before ([FEnd] ++ r_exit st) (w_before E orig))
+                  else (set_entry [] st, w_before E orig) in
+                rstep3 op (w_before E orig) st1 w1).
+  { unfold rstep. cbn [r_entry set_entry is_nil negb andb r_exit]. reflexivity. }
+  rewrite L, R.
+  destruct (is_nil (r_exit st)); [symmetry; apply rstep3_orig_before|].
+  destruct (is_exit_op op); [symmetry; apply rstep3_orig_before|].
+  destruct (Nat.eqb 0 last); symmetry; apply rstep3_orig_before.
+Qed.
+
+(* the flags function the tree-level statement uses: [c] filed behind the before-code of instruction 0 *)
+Definition with0 (c : list fop) (F : nat -> flags) : nat -> flags :=
+  fun i => if Nat.eqb i 0 then w_before c (F i) else F i.
+
+Lemma flagged_ext G G' : forall ops idx, (forall k, idx <= k -> G k = G' k) -> flagged G idx ops = flagged G' idx ops.
+Proof.
+  induction ops as [|o ops IH]; intros idx H; [reflexivity|].
+  rewrite !flagged_cons, (H idx (le_n _)), (IH (S idx)); [reflexivity|]. intros k Hk. apply H. lia.
+Qed.
+Lemma flagged_with0 c F o ops : flagged (with0 c F) 0 (o :: ops) = (o, w_before c (F 0)) :: flagged F 1 ops.
+Proof.
+  rewrite flagged_cons. f_equal. apply flagged_ext. intros k Hk. unfold with0.
+  destruct (Nat.eqb_spec k 0); [lia|reflexivity].
+Qed.
+Lemma flagged_length G ops : forall idx, length (flagged G idx ops) = length ops.
+Proof. induction ops as [|o ops IH]; intros idx; [reflexivity|]. rewrite flagged_cons. cbn [length]. rewrite IH. reflexivity. Qed.
+
+Lemma nonrepl_with0 c F : nonrepl F -> nonrepl (with0 c F).
+Proof. intros H i. unfold with0. destruct (Nat.eqb i 0); cbn [w_before f_alt f_balt]; apply H. Qed.
+
+Lemma forallb_ext_Forall {A} (P Q : A -> bool) l : Forall (fun x => P x = Q x) l -> forallb P l = forallb Q l.
+Proof. induction 1 as [|x l Hx _ IH]; [reflexivity|]. cbn [forallb]. rewrite Hx, IH. reflexivity. Qed.
+
+Lemma okI_ext F G : (forall i, f_sa (F i) = f_sa (G i) /\ f_bx (F i) = f_bx (G i)) -> forall x, okI F x = okI G x.
+Proof.
+  intros H. induction x as [i o|i e bt b IHb|i e bt b IHb|i el e bt t els IHt IHe] using instr_ind2; cbn [okI].
+  - rewrite (proj1 (H i)). reflexivity.
+  - apply forallb_ext_Forall. exact IHb.
+  - apply forallb_ext_Forall. exact IHb.
+  - rewrite (proj2 (H i)), (forallb_ext_Forall _ _ _ IHt), (forallb_ext_Forall _ _ _ IHe). reflexivity.
+Qed.
+Lemma okI_with0 c F t : forallb (okI (with0 c F)) t = forallb (okI F) t.
+Proof.
+  apply forallb_ext_Forall. apply Forall_forall. intros x _. apply okI_ext.
+  intros i. unfold with0. destruct (Nat.eqb i 0); cbn [w_before f_sa f_bx]; auto.
+Qed.
+
+Lemma flat_map_ext_Forall {A B} (f g : A -> list B) l : Forall (fun x => f x = g x) l -> flat_map f l = flat_map g l.
+Proof. induction 1 as [|x l Hx _ IH]; [reflexivity|]. cbn [flat_map]. rewrite Hx, IH. reflexivity. Qed.
+
+(* the tree lowering only reads the five code lists *)
+Lemma lower_ext F G X :
+  (forall i, bef F i = bef G i /\ aft F i = aft G i /\ be_ F i = be_ G i /\ bx_ F i = bx_ G i /\ sa_ F i = sa_ G i) ->
+  forall x, lower F X x = lower G X x.
+Proof.
+  intros H.
+  assert (Hb : forall i, bef F i = bef G i) by (intros i; apply H).
+  assert (Ha : forall i, aft F i = aft G i) by (intros i; apply H).
+  assert (He : forall i, be_ F i = be_ G i) by (intros i; apply H).
+  assert (Hx : forall i, bx_ F i = bx_ G i) by (intros i; apply H).
+  assert (Hs : forall i, sa_ F i = sa_ G i) by (intros i; apply H).
+  induction x as [i o|i e bt b IHb|i e bt b IHb|i el e bt t els IHt IHe] using instr_ind2; cbn [lower].
+  - rewrite Hb, Ha. reflexivity.
+  - rewrite !Hb, !Ha, He, Hx, Hs, (flat_map_ext_Forall _ _ _ IHb). reflexivity.
+  - rewrite !Hb, !Ha, He, Hx, Hs, (flat_map_ext_Forall _ _ _ IHb). reflexivity.
+  - rewrite (flat_map_ext_Forall _ _ _ IHt), (flat_map_ext_Forall _ _ _ IHe).
+    unfold else_sa. destruct el as [x|]; rewrite ?Hb, ?Ha, ?He, ?Hx, ?Hs; reflexivity.
+Qed.
+
+Lemma mid_emit_c (F : nat -> flags) (X : list fop) (HNR : nonrepl F) last idx op i st st' PB PA c :
+  idx < last -> r_entry st = [] -> r_exit st = X ->
+  (forall w0, exists w, rstep3 op (F i) st w0 = (st', w)
+     /\ f_before w = f_before w0 ++ PB /\ f_after w = f_after w0 ++ PA /\ f_alt w = f_alt w0) ->
+  exists w, rstep last idx op (w_before c (F i)) st = (st', w)
+    /\ emit1 (op, w) = f_before (F i) ++ c ++ (if is_exit_op op then X else []) ++ PB ++ [op] ++ f_after (F i) ++ PA.
+Proof.
+  intros Hlt He Hx H. rewrite rstep_mid by assumption. rewrite Hx, rstep3_orig_before.
+  destruct (H (xw X op (w_before c (F i)))) as (w & E & W1 & W2 & W3).
+  destruct (xw_fields X op (w_before c (F i))) as (V1 & V2 & V3).
+  exists w. split; [exact E|].
+  rewrite emit1_noalt by (rewrite W3, V3; apply (proj1 (HNR i))).
+  rewrite W1, W2, V1, V2. cbn [w_before f_before f_after]. rewrite <- !app_assoc. reflexivity.
+Qed.
+
+(* the first step of a subtree, parametric in extra before-code [c] of its first instruction *)
+Lemma first_step_param (F : nat -> flags) (X : list fop) (HNR : nonrepl F) x last idx d ret m loc :
+  okI F x = true -> idx < last -> fresh d m ->
+  exists op i tlx st' Q, flatF1 F x = (op, F i) :: tlx /\
+    forall c, exists w, rstep last idx op (w_before c (F i)) (St X d ret [] m loc) = (st', w)
+                        /\ emit1 (op, w) = f_before (F i) ++ c ++ Q.
+Proof.
+  intros Hok Hlt Hf. pose proof (Hf d (le_n d)) as Hm.
+  destruct x as [i o|i e bt b|i e bt b|i el e bt t els].
+  - cbn [okI] in Hok. apply andb_prop in Hok as [Hp Hs].
+    assert (Hs' : is_branching o = true -> sa_ F i = []).
+    { intros Hb. rewrite Hb in Hs. cbn [negb orb] in Hs. apply is_nil_true. exact Hs. }
+    exists o, i, [], (St X d ret [] m loc). eexists. split; [reflexivity|]. intros c.
+    apply (mid_emit_c F X HNR last idx o i (St X d ret [] m loc) _ [] [] c Hlt eq_refl eq_refl).
+    intros w0. destruct (step_plain3 F X i o d ret [] m loc w0 Hp Hs') as (w & E & W1 & W2 & W3).
+    exists w. rewrite !app_nil_r. auto.
+  - exists (FBlock bt), i. eexists. eexists. eexists. split; [reflexivity|]. intros c.
+    apply (mid_emit_c F X HNR last idx (FBlock bt) i (St X d ret [] m loc) _ [] (be_ F i) c Hlt eq_refl eq_refl).
+    intros w0. destruct (step_open3 F X HNR (FBlock bt) i d ret [] m loc w0 ltac:(eauto) Hm) as (w & E & W1 & W2 & W3).
+    exists w. rewrite !app_nil_r. split; [exact E|auto].
+  - exists (FLoop bt), i. eexists. eexists. eexists. split; [reflexivity|]. intros c.
+    apply (mid_emit_c F X HNR last idx (FLoop bt) i (St X d ret [] m loc) _ [] (be_ F i) c Hlt eq_refl eq_refl).
+    intros w0. destruct (step_open3 F X HNR (FLoop bt) i d ret [] m loc w0 ltac:(eauto) Hm) as (w & E & W1 & W2 & W3).
+    exists w. rewrite !app_nil_r. split; [exact E|auto].
+  - exists (FIf bt), i. eexists. eexists. eexists. split; [reflexivity|]. intros c.
+    apply (mid_emit_c F X HNR last idx (FIf bt) i (St X d ret [] m loc) _ [] (be_ F i) c Hlt eq_refl eq_refl).
+    intros w0. destruct (step_if3 F X HNR bt i d ret [] m loc w0 Hm) as (w & E & W1 & W2 & W3).
+    exists w. rewrite !app_nil_r. split; [exact E|auto].
+Qed.
+
+(* the run on a parsed body, parametric in extra before-code [c] of instruction 0: the emitted body is
+   [before-code of instruction 0] ++ c ++ rest, with [rest] and the final locals independent of c *)
+Lemma head_param (F : nat -> flags) (X : list fop) (HNR : nonrepl F) ops t fe loc :
+  parse_body ops = Some (t, fe) -> t <> [] -> forallb (okI F) t = true ->
+  exists rest l0, forall c,
+    emit (fst (rloop (length ops - 1) 0 (flagged (with0 c F) 0 ops) (mkR [] X [0] None true [] [] loc)))
+    = f_before (F 0) ++ c ++ rest
+    /\ r_loc (snd (rloop (length ops - 1) 0 (flagged (with0 c F) 0 ops) (mkR [] X [0] None true [] [] loc))) = l0.
+Proof.
+  intros Hp Hne Hok.
+  destruct (parse_body_flat F _ _ _ Hp) as [Hfl _].
+  destruct t as [|x t']; [congruence|]. clear Hne.
+  cbn [forallb] in Hok. apply andb_prop in Hok as [Hokx _].
+  destruct ops as [|o ops'].
+  { exfalso. rewrite flatF_cons in Hfl. destruct (flatF1 F x ++ flatF F t'); discriminate Hfl. }
+  cbn [length]. replace (S (length ops') - 1) with (length ops') by lia.
+  assert (Hlast : 0 < length ops').
+  { apply (f_equal (@length _)) in Hfl. rewrite flagged_length, app_length, flatF_cons, app_length in Hfl. cbn [length] in Hfl.
+    destruct x; cbn [flatF1 length] in Hfl; lia. }
+  destruct (first_step_param F X HNR x (length ops') 0 1 true [] loc Hokx Hlast ltac:(intros k _; reflexivity))
+    as (op & i & tlx & st' & Q & Hx & Hstep).
+  rewrite flatF_cons, Hx, flagged_cons in Hfl. cbn [app] in Hfl. inversion Hfl as [[Ho HF0 Htl]].
+  destruct (rloop (length ops') 1 (flagged F 1 ops') st') as [outR st2] eqn:ER.
+  exists (Q ++ emit_from (length outR) 1 outR), (r_loc st2). intros c.
+  rewrite flagged_with0. cbn [rloop].
+  destruct (Hstep c) as (w & E & M). rewrite <- HF0. change (St X 1 true [] [] loc) with (mkR [] X [0] None true [] [] loc) in E.
+  rewrite <- Ho, E, ER. cbn [fst snd]. split; [|reflexivity].
+  assert (Hlen : length outR = length ops').
+  { pose proof (rloop_length (length ops') (flagged F 1 ops') 1 st') as L. rewrite ER, flagged_length in L. exact L. }
+  unfold emit. cbn [length]. replace (S (length outR) - 1) with (length outR) by lia.
+  change ((op, w) :: outR) with ([(op, w)] ++ outR). rewrite emit_from_app. cbn [length Nat.add].
+  rewrite emit_from_mid by (cbn [length]; lia). rewrite emit_mid_one, M, <- !app_assoc. reflexivity.
+Qed.
+
+(* entry code present: the run is the run on the body whose instruction 0 carries the entry code as before-code *)
+Lemma rloop_entry (F : nat -> flags) X E last o ops loc :
+  E <> [] ->
+  rloop last 0 (flagged F 0 (o :: ops)) (mkR E X [0] None true [] [] loc)
+  = rloop last 0 (flagged (with0 E F) 0 (o :: ops)) (mkR [] X [0] None true [] [] loc).
+Proof.
+  intros HE. rewrite flagged_with0, flagged_cons. cbn [rloop].
+  rewrite (rstep_entry last o (F 0) (mkR E X [0] None true [] [] loc) E HE eq_refl). reflexivity.
+Qed.
+
+Lemma flat_fn_tree_nil F ty t fe : flat (fn_tree F [] ty t fe) = flat (flat_map (lower F []) t) ++ f_before (F fe).
+Proof. unfold fn_tree, inner. rewrite flat_app, flat_ins. reflexivity. Qed.
+Lemma flat_fn_tree_cons F X ty t fe : X <> [] ->
+  flat (fn_tree F X ty t fe) = FBlock (BtFunc ty) :: (flat (flat_map (lower F X) t) ++ f_before (F fe)) ++ [FEnd] ++ X.
+Proof.
+  intros HX. unfold fn_tree, inner. destruct X as [|x0 X0]; [congruence|].
+  rewrite flat_app, flat_ins, flat_cons. cbn [flat1].
+  fold (flat (flat_map (lower F (x0 :: X0)) t ++ ins (bef F fe))). rewrite flat_app, flat_ins.
+  cbn [flat flat_map]. rewrite app_nil_r. cbn [app]. rewrite <- !app_assoc. reflexivity.
+Qed.
+
+(* ---------- resolve_flatten with function entry / exit probes ----------
+   [with0 entry F] is the flags function of CheckSem.tree_tie (entry code filed behind the user's before-code of
+   instruction 0); SimFn.fn_tree is the tree of the function-level simulation theorem.  Without exit probes the
+   emitted body is exactly the flattening of that tree (+ the final end).  With exit probes the implementation
+   emits pre = before-code of instruction 0 in front of the wrapper's opener, the tree has it just behind it. *)
+Theorem resolve_flatten_fn (F : nat -> flags) ops t fe entry X ty loc :
+  parse_body ops = Some (t, fe) -> nonrepl F -> forallb (okI F) t = true -> (X <> [] -> t <> []) ->
+  let F0 := with0 entry F in
+  let pre := f_before (F0 0) in
+  let r := resolve true entry X ty (flagged F 0 ops) loc in
+  snd r = loc /\
+  match X with
+  | [] => emit (fst r) = flat (fn_tree F0 X ty t fe) ++ [FEnd]
+  | _ => exists rest, emit (fst r) = pre ++ FBlock (BtFunc ty) :: rest
+                      /\ flat (fn_tree F0 X ty t fe) ++ [FEnd] = FBlock (BtFunc ty) :: pre ++ rest
+  end.
+Proof.
+  intros Hp HNR Hok Hne F0 pre r.
+  assert (HNR0 : nonrepl F0) by (apply nonrepl_with0; exact HNR).
+  assert (Hok0 : forallb (okI F0) t = true) by (unfold F0; rewrite okI_with0; exact Hok).
+  destruct (parse_body_flat F _ _ _ Hp) as [Hfl _].
+  destruct (parse_body_flat F0 _ _ _ Hp) as [Hfl0 _].
+  assert (Hops : exists o ops', ops = o :: ops').
+  { destruct ops as [|o ops']; [|eauto]. destruct (flatF F t); discriminate Hfl. }
+  destruct Hops as (o & ops' & ->).
+  (* the run on the body that carries the entry code as before-code of instruction 0 *)
+  destruct (body_run F0 X HNR0 t fe loc Hok0) as (out & w & st' & E & L & _ & M & W1 & W3).
+  rewrite Hfl0 in E. rewrite flagged_length in E.
+  unfold r, resolve. cbn [negb]. rewrite flagged_length.
+  destruct X as [|x0 X0].
+  - (* no exit probes *)
+    cbn [is_nil].
+    assert (ER : exists st2, rloop (length (o :: ops') - 1) 0 (flagged F 0 (o :: ops')) (mkR entry [] [0] None true [] [] loc) = (fst (rloop (length (o :: ops') - 1) 0 (flagged F 0 (o :: ops')) (mkR entry [] [0] None true [] [] loc)), st2)
+                 /\ r_loc st2 = loc
+                 /\ emit (fst (rloop (length (o :: ops') - 1) 0 (flagged F 0 (o :: ops')) (mkR entry [] [0] None true [] [] loc)))
+                    = flat (flat_map (lower F0 []) t) ++ f_before (F0 fe) ++ [FEnd]).
+    { destruct entry as [|e0 entry0].
+      - (* no entry code either: the plain theorem, and with0 [] F reads the same code lists as F *)
+        destruct (body_run F [] HNR t fe loc Hok) as (out1 & w1 & st1 & E1 & L1 & _ & M1 & W11 & W13).
+        rewrite Hfl, flagged_length in E1. rewrite E1. cbn [fst]. exists st1. split; [reflexivity|]. split; [exact L1|].
+        rewrite emit_snoc by exact W13. rewrite M1, W11. cbn [is_nil]. rewrite app_nil_r.
+        assert (EXT : forall i, bef F i = bef F0 i /\ aft F i = aft F0 i /\ be_ F i = be_ F0 i /\ bx_ F i = bx_ F0 i /\ sa_ F i = sa_ F0 i).
+        { intros i. unfold F0, with0, bef, aft, be_, bx_, sa_. destruct (Nat.eqb i 0); cbn [w_before f_before f_after f_be f_bx f_sa]; rewrite ?app_nil_r; auto. }
+        rewrite (flat_map_ext_Forall (lower F []) (lower F0 [])) by (apply Forall_forall; intros x _; apply lower_ext; exact EXT).
+        f_equal. f_equal. apply (proj1 (EXT fe)).
+      - rewrite rloop_entry by discriminate. fold F0. rewrite E. cbn [fst]. exists st'. split; [reflexivity|]. split; [exact L|].
+        rewrite emit_snoc by exact W3. rewrite M, W1. cbn [is_nil]. rewrite app_nil_r. reflexivity. }
+    destruct ER as (st2 & ER & L2 & EM). rewrite ER. cbn [fst snd]. split; [exact L2|].
+    rewrite ER in EM. cbn [fst] in EM. rewrite EM, flat_fn_tree_nil, <- app_assoc. reflexivity.
+  - (* exit probes: the wrapper *)
+    cbn [is_nil]. specialize (Hne ltac:(discriminate)).
+    destruct (head_param F (x0 :: X0) HNR (o :: ops') t fe loc Hp Hne Hok) as (rest & l0 & HP).
+    destruct (HP entry) as [B1 B2]. fold F0 in B1, B2. rewrite E in B1, B2. cbn [fst snd] in B1, B2.
+    destruct (HP (entry ++ [FBlock (BtFunc ty)])) as [A1 A2].
+    rewrite rloop_entry by (destruct entry; discriminate).
+    destruct (rloop (length (o :: ops') - 1) 0 (flagged (with0 (entry ++ [FBlock (BtFunc ty)]) F) 0 (o :: ops')) _) as [rA stA].
+    cbn [fst snd] in A1, A2 |- *. split; [rewrite A2, <- B2; exact L|].
+    exists rest. split.
+    + rewrite A1. unfold pre, F0, with0. cbn [Nat.eqb w_before f_before]. rewrite <- !app_assoc. reflexivity.
+    + rewrite flat_fn_tree_cons by discriminate.
+      rewrite emit_snoc in B1 by exact W3. rewrite M, W1 in B1. cbn [is_nil] in B1.
+      unfold pre, F0 at 3, with0. cbn [Nat.eqb w_before f_before].
+      cbn [app]. f_equal. rewrite <- !app_assoc. rewrite <- !app_assoc in B1. cbn [app] in B1 |- *. exact B1.
+Qed.
+
+(* ---------- function-level corollary (SimFn.sim_fn): entry / exit probes included ---------- *)
+Corollary resolve_flatten_fn_sim ftypes (F : nat -> flags) ops t fe entry X ty nres loc :
+  parse_body ops = Some (t, fe) -> nonrepl F -> forallb (okI F) t = true -> (X <> [] -> t <> []) ->
+  let F0 := with0 entry F in
+  let pre := f_before (F0 0) in
+  let emitted := emit (fst (resolve true entry X ty (flagged F 0 ops) loc)) in
+  pcode X ->
+  (forall i, pcode (bef F0 i) /\ pcode (aft F0 i) /\ pcode (be_ F0 i) /\ pcode (bx_ F0 i) /\ pcode (sa_ F0 i)) ->
+  neutral X -> arity ftypes (BtFunc ty) = (0, nres)%nat ->
+  exists tree : list instr,
+    (* the tree is what the mirror model emits (up to the rotation of pre in front of the wrapper's opener) *)
+    match X with
+    | [] => emitted = flat tree ++ [FEnd]
+    | _ => exists rest, emitted = pre ++ FBlock (BtFunc ty) :: rest /\ flat tree ++ [FEnd] = FBlock (BtFunc ty) :: pre ++ rest
+    end
+    /\ (* and the plain interpreter on it reproduces every result of the specification interpreter *)
+    forall fuel c ob,
+      exec_fn ftypes F0 [] X true fuel t fe c = ob -> ob <> OFuel -> stack c = [] ->
+      (forall n p c', exec ftypes F0 X true fuel false t c = OBr n p c' -> n = 0%nat) ->
+      exists fuel' ob', exec_fn ftypes nof [] [] false fuel' tree 0 c = ob' /\ res_eq nres ob ob'.
+Proof.
+  intros Hp HNR Hok Hne F0 pre emitted HX Hcode NX Hty.
+  exists (fn_tree F0 X ty t fe). split.
+  - apply (resolve_flatten_fn F ops t fe entry X ty loc Hp HNR Hok Hne).
+  - intros fuel c ob H Hn Hs Hd.
+    apply (sim_fn ftypes F0 X HX Hcode NX ty nres Hty fuel t fe c ob H Hn); [|exact Hs|exact Hd].
+    apply okI_nbl. unfold F0. rewrite okI_with0. exact Hok.
+Qed.
+
+(* ---------- the theorem for CheckLow.model with function entry / exit probes: exactly the equation
+   CheckSem.tree_tie tests on every sampled case ---------- *)
+Theorem model_flatten_fn (c : lcase) t fe fb sp n n' :
+  parse_body (c_body c) = Some (t, fe) ->
+  apply_plan false (c_plan c) (map (fun o => (o, no_flags)) (c_body c)) false = Some (fb, sp) ->
+  forallb (fun x => nonreplacing (snd x)) fb = true ->
+  let F0 := with0 (c_entry c) (flags_fn fb) in
+  let pre := f_before (F0 0) in
+  forallb (instr_no_branch_sa F0 n) t = true -> forallb (instr_no_d15 F0 n') t = true ->
+  (c_exit c <> [] -> t <> []) ->
+  exists body, model c = Some (body, c_groups c) /\
+    match c_exit c with
+    | [] => body = flat (fn_tree F0 (c_exit c) (c_exit_ty c) t fe) ++ [FEnd]
+    | _ => exists rest, body = pre ++ FBlock (BtFunc (c_exit_ty c)) :: rest
+                        /\ flat (fn_tree F0 (c_exit c) (c_exit_ty c) t fe) ++ [FEnd] = FBlock (BtFunc (c_exit_ty c)) :: pre ++ rest
+    end.
+Proof.
+  intros Hp Ha Hnr F0 pre Hsa Hd Hne.
+  set (F := flags_fn fb) in *.
+  assert (Hops : map fst fb = c_body c).
+  { rewrite (apply_plan_ops _ _ _ _ _ _ Ha), map_map. cbn [fst]. apply map_id. }
+  destruct (parse_body_flat F _ _ _ Hp) as [Hfl Hpl].
+  assert (Hfb : fb = flagged F 0 (c_body c)) by (rewrite <- Hops; apply flagged_self).
+  assert (HNR : nonrepl F).
+  { intros i. unfold F, flags_fn.
+    destruct (nth_in_or_default i fb (FEnd, no_flags)) as [Hin| ->]; [|split; reflexivity].
+    rewrite forallb_forall in Hnr. specialize (Hnr _ Hin). unfold nonreplacing in Hnr.
+    apply andb_prop in Hnr as [H1 H2]. destruct (f_alt _); [discriminate|]. destruct (f_balt _); [discriminate|]. auto. }
+  assert (Hok : forallb (okI F) t = true).
+  { rewrite <- (okI_with0 (c_entry c)). fold F0.
+    eapply (forallb_lift4 (instr_no_branch_sa F0 n) (instr_no_d15 F0 n') plainok); [|exact Hsa|exact Hd|exact Hpl].
+    apply Forall_forall. intros x _. apply checksem_okI. }
+  set (loc := mkLocals (c_nparams c) (c_numlocals c) (c_groups c)).
+  pose proof (resolve_flatten_fn F (c_body c) t fe (c_entry c) (c_exit c) (c_exit_ty c) loc Hp HNR Hok Hne) as R.
+  cbn zeta in R. rewrite <- Hfb in R. fold F0 in R. destruct R as [R2 R1].
+  assert (HS : resolve (sp || negb (is_nil (c_entry c)) || negb (is_nil (c_exit c))) (c_entry c) (c_exit c) (c_exit_ty c) fb loc
+               = resolve true (c_entry c) (c_exit c) (c_exit_ty c) fb loc).
+  { destruct sp; [reflexivity|]. destruct (c_entry c); [|reflexivity]. destruct (c_exit c); [|reflexivity].
+    cbn [is_nil negb orb]. rewrite Idem.resolve_idempotent; [reflexivity|].
+    apply (apply_plan_nospecial _ _ _ _ _ Ha). clear. induction (c_body c); [reflexivity|]. cbn. exact IHl. }
+  unfold model. rewrite (apply_plan_ma _ false), Ha. fold loc. rewrite HS.
+  destruct (resolve true (c_entry c) (c_exit c) (c_exit_ty c) fb loc) as [r loc'] eqn:ER.
+  cbn [fst snd] in R1, R2. subst loc'. exists (emit r). split; [reflexivity|exact R1].
+Qed.
+
+
+(* ------------------------------------------------------------------------------------------ *)
+(* The real placement (SimFnReal.real_tree, the tree CheckSem.tree_tie compares with the emitted body):
+   pre ++ [block ty (lowered body, instruction 0 without its before-code) ++ bef(final end)) end] ++ X,
+   pre = before-code of instruction 0 (the user's, then the entry probes).  No rotation. *)
+Lemma w_before_clear f e : w_before (f_before f ++ e) (clear_before f) = w_before e f.
+Proof. destruct f; reflexivity. Qed.
+Lemma w_before_clear0 f : w_before (f_before f) (clear_before f) = f.
+Proof. destruct f; reflexivity. Qed.
+
+Lemma nonrepl_F0 F : nonrepl F -> nonrepl (TreeLower.F0 F).
+Proof. intros H i. unfold TreeLower.F0. destruct (Nat.eqb i 0); cbn [clear_before f_alt f_balt]; apply H. Qed.
+Lemma okI_F0 F t : forallb (okI (TreeLower.F0 F)) t = forallb (okI F) t.
+Proof.
+  apply forallb_ext_Forall. apply Forall_forall. intros x _. apply okI_ext.
+  intros i. unfold TreeLower.F0. destruct (Nat.eqb_spec i 0) as [->|]; cbn [clear_before f_sa f_bx]; auto.
+Qed.
+Lemma F0_with0 e F p : TreeLower.F0 (with0 e F) p = TreeLower.F0 F p.
+Proof. unfold TreeLower.F0, with0. destruct (Nat.eqb_spec p 0) as [->|Hp]; [reflexivity|]. destruct (Nat.eqb_spec p 0); [contradiction|reflexivity]. Qed.
+
+Lemma flat_fn_tree_ext F G X ty t fe : (forall p, F p = G p) -> flat (fn_tree F X ty t fe) = flat (fn_tree G X ty t fe).
+Proof.
+  intros H.
+  assert (EXT : forall i, bef F i = bef G i /\ aft F i = aft G i /\ be_ F i = be_ G i /\ bx_ F i = bx_ G i /\ sa_ F i = sa_ G i).
+  { intros i. unfold bef, aft, be_, bx_, sa_. rewrite (H i). auto. }
+  unfold fn_tree, inner.
+  rewrite (flat_map_ext_Forall (lower F X) (lower G X)) by (apply Forall_forall; intros x _; apply lower_ext; exact EXT).
+  rewrite (proj1 (EXT fe)). reflexivity.
+Qed.
+
+Theorem resolve_flatten_real (F : nat -> flags) ops t fe entry X ty loc :
+  parse_body ops = Some (t, fe) -> nonrepl F -> forallb (okI F) t = true -> t <> [] ->
+  let r := resolve true entry X ty (flagged F 0 ops) loc in
+  emit (fst r) = flat (real_tree (with0 entry F) X ty t fe) ++ [FEnd] /\ snd r = loc.
+Proof.
+  intros Hp HNR Hok Hne r.
+  set (G := TreeLower.F0 F).
+  assert (HNRG : nonrepl G) by (apply nonrepl_F0; exact HNR).
+  assert (HokG : forallb (okI G) t = true) by (unfold G; rewrite okI_F0; exact Hok).
+  destruct (head_param G X HNRG ops t fe loc Hp Hne HokG) as (rest & l0 & HP).
+  (* the run with nothing in front: the body theorem for G *)
+  assert (HNRG0 : nonrepl (with0 [] G)) by (apply nonrepl_with0; exact HNRG).
+  assert (HokG0 : forallb (okI (with0 [] G)) t = true) by (rewrite okI_with0; exact HokG).
+  destruct (parse_body_flat (with0 [] G) _ _ _ Hp) as [Hfl0 _].
+  destruct (body_run (with0 [] G) X HNRG0 t fe loc HokG0) as (out & w & st' & E & L & _ & M & W1 & W3).
+  rewrite Hfl0, flagged_length in E.
+  destruct (HP []) as [B1 B2]. rewrite E in B1, B2. cbn [fst snd] in B1, B2.
+  rewrite emit_snoc in B1 by exact W3. rewrite M, W1 in B1. cbn [app] in B1.
+  assert (EXT : forall i, bef (with0 [] G) i = bef G i /\ aft (with0 [] G) i = aft G i /\ be_ (with0 [] G) i = be_ G i
+                          /\ bx_ (with0 [] G) i = bx_ G i /\ sa_ (with0 [] G) i = sa_ G i).
+  { intros i. unfold with0, bef, aft, be_, bx_, sa_. destruct (Nat.eqb i 0); cbn [w_before f_before f_after f_be f_bx f_sa]; rewrite ?app_nil_r; auto. }
+  rewrite (flat_map_ext_Forall (lower (with0 [] G) X) (lower G X)) in B1 by (apply Forall_forall; intros x _; apply lower_ext; exact EXT).
+  change (f_before (with0 [] G fe)) with (bef (with0 [] G) fe) in B1. rewrite (proj1 (EXT fe)) in B1.
+  change (f_before (G 0)) with (@nil fop) in B1. cbn [app] in B1.
+  (* the real run *)
+  destruct (parse_body_flat F _ _ _ Hp) as [Hfl _].
+  assert (Hops : exists o ops', ops = o :: ops').
+  { destruct ops as [|o ops']; [|eauto]. destruct (flatF F t); discriminate Hfl. }
+  destruct Hops as (o & ops' & ->).
+  assert (HG1 : flagged F 1 ops' = flagged G 1 ops').
+  { apply flagged_ext. intros k Hk. unfold G, TreeLower.F0. destruct (Nat.eqb_spec k 0); [lia|reflexivity]. }
+  assert (RUN : forall c, (o, w_before c (F 0)) :: flagged F 1 ops' = flagged (with0 (f_before (F 0) ++ c) G) 0 (o :: ops')).
+  { intros c. rewrite flagged_with0, HG1. unfold G, TreeLower.F0 at 1. cbn [Nat.eqb]. rewrite w_before_clear. reflexivity. }
+  assert (FIN : forall c, emit (fst (rloop (length (o :: ops') - 1) 0 ((o, w_before c (F 0)) :: flagged F 1 ops') (mkR [] X [0] None true [] [] loc)))
+                          = f_before (F 0) ++ c ++ rest
+                          /\ r_loc (snd (rloop (length (o :: ops') - 1) 0 ((o, w_before c (F 0)) :: flagged F 1 ops') (mkR [] X [0] None true [] [] loc))) = loc).
+  { intros c. rewrite RUN. destruct (HP (f_before (F 0) ++ c)) as [A1 A2]. rewrite A1, A2, <- B2.
+    change (f_before (G 0)) with (@nil fop). cbn [app]. rewrite <- app_assoc. split; [reflexivity|exact L]. }
+  assert (REAL : flat (real_tree (with0 entry F) X ty t fe) ++ [FEnd]
+                 = f_before (F 0) ++ (if is_nil X then entry else entry ++ [FBlock (BtFunc ty)]) ++ rest).
+  { unfold real_tree. rewrite flat_app, flat_ins.
+    rewrite (flat_fn_tree_ext (TreeLower.F0 (with0 entry F)) G X ty t fe) by (intros p; apply F0_with0).
+    unfold bef, with0 at 1. cbn [Nat.eqb w_before f_before]. rewrite <- B1.
+    destruct X as [|x0 X0]; cbn [is_nil].
+    - rewrite flat_fn_tree_nil. rewrite <- !app_assoc. reflexivity.
+    - rewrite flat_fn_tree_cons by discriminate. cbn [is_nil]. rewrite <- !app_assoc. cbn [app]. rewrite <- !app_assoc. reflexivity. }
+  rewrite REAL.
+  unfold r, resolve. cbn [negb]. rewrite flagged_length.
+  set (E' := if is_nil X then entry else entry ++ [FBlock (BtFunc ty)]).
+  destruct E' as [|e0 E0] eqn:EE.
+  - (* no entry code at all *)
+    assert (HX : X = []) by (unfold E' in EE; destruct X; [reflexivity|destruct entry; discriminate EE]).
+    assert (Hen : entry = []) by (unfold E' in EE; rewrite HX in EE; exact EE).
+    subst X entry. cbn [is_nil] in *.
+    assert (RUN0 : flagged F 0 (o :: ops') = flagged (with0 (f_before (F 0)) G) 0 (o :: ops')).
+    { rewrite flagged_with0, flagged_cons, HG1. unfold G, TreeLower.F0 at 1. cbn [Nat.eqb]. rewrite w_before_clear0. reflexivity. }
+    rewrite RUN0. destruct (HP (f_before (F 0))) as [A1 A2].
+    destruct (rloop (length (o :: ops') - 1) 0 (flagged (with0 (f_before (F 0)) G) 0 (o :: ops')) _) as [rA stA].
+    cbn [fst snd] in A1, A2 |- *. rewrite A1, A2, <- B2.
+    change (f_before (G 0)) with (@nil fop). cbn [app]. split; [reflexivity|exact L].
+  - rewrite rloop_entry by discriminate. rewrite flagged_with0. rewrite <- EE.
+    destruct (FIN E') as [A1 A2].
+    destruct (rloop (length (o :: ops') - 1) 0 ((o, w_before E' (F 0)) :: flagged F 1 ops') _) as [rA stA].
+    cbn [fst snd] in A1, A2 |- *. rewrite A1, A2. auto.
+Qed.
+
+(* ---------- node positions of a parsed tree are exactly the flat positions ---------- *)
+Fixpoint labs1 (x : instr) : list nat :=
+  match x with
+  | IPlain i _ => [i]
+  | IBlock i e _ b | ILoop i e _ b => i :: flat_map labs1 b ++ [e]
+  | IIf i el e _ t els =>
+      i :: flat_map labs1 t ++ (match el with Some x => [x] | None => [] end) ++ flat_map labs1 els ++ [e]
+  end.
+Definition labs (t : list instr) : list nat := flat_map labs1 t.
+Definition tlab (tm : term) : list nat := match tm with TEnd e | TElse e => [e] | TEof => [] end.
+
+Lemma parse_seq_labs : forall fuel idx ops t tm idx' rest,
+  parse_seq fuel idx ops = Some (t, tm, idx', rest) ->
+  seq idx (length ops) = labs t ++ tlab tm ++ seq idx' (length rest).
+Proof.
+  induction fuel as [|fuel IH]; intros idx ops t tm idx' rest H; [discriminate H|].
+  cbn [parse_seq] in H. destruct ops as [|o ops]; [inversion H; subst; reflexivity|].
+  cbn [length seq].
+  destruct o;
+    try (destruct (parse_seq fuel (S idx) ops) as [[[[tl tm1] idx1] rest1]|] eqn:E1; [|discriminate H];
+         inversion H; subst; rewrite (IH _ _ _ _ _ _ E1); reflexivity).
+  - destruct (parse_seq fuel (S idx) ops) as [[[[body tm1] idx1] rest1]|] eqn:E1; [|discriminate H].
+    destruct tm1 as [e|e|]; try discriminate H.
+    destruct (parse_seq fuel idx1 rest1) as [[[[tl tm2] idx2] rest2]|] eqn:E2; [|discriminate H].
+    inversion H; subst. rewrite (IH _ _ _ _ _ _ E1), (IH _ _ _ _ _ _ E2).
+    unfold labs. cbn [flat_map labs1 tlab]. cbn [app]. rewrite <- !app_assoc. reflexivity.
+  - destruct (parse_seq fuel (S idx) ops) as [[[[body tm1] idx1] rest1]|] eqn:E1; [|discriminate H].
+    destruct tm1 as [e|e|]; try discriminate H.
+    destruct (parse_seq fuel idx1 rest1) as [[[[tl tm2] idx2] rest2]|] eqn:E2; [|discriminate H].
+    inversion H; subst. rewrite (IH _ _ _ _ _ _ E1), (IH _ _ _ _ _ _ E2).
+    unfold labs. cbn [flat_map labs1 tlab]. cbn [app]. rewrite <- !app_assoc. reflexivity.
+  - destruct (parse_seq fuel (S idx) ops) as [[[[thn tm1] idx1] rest1]|] eqn:E1; [|discriminate H].
+    destruct tm1 as [e|el|]; try discriminate H.
+    + destruct (parse_seq fuel idx1 rest1) as [[[[tl tm2] idx2] rest2]|] eqn:E2; [|discriminate H].
+      inversion H; subst. rewrite (IH _ _ _ _ _ _ E1), (IH _ _ _ _ _ _ E2).
+      unfold labs. cbn [flat_map labs1 tlab]. cbn [app]. rewrite <- !app_assoc. reflexivity.
+    + destruct (parse_seq fuel idx1 rest1) as [[[[els tm2] idx2] rest2]|] eqn:E2; [|discriminate H].
+      destruct tm2 as [e|e|]; try discriminate H.
+      destruct (parse_seq fuel idx2 rest2) as [[[[tl tm3] idx3] rest3]|] eqn:E3; [|discriminate H].
+      inversion H; subst. rewrite (IH _ _ _ _ _ _ E1), (IH _ _ _ _ _ _ E2), (IH _ _ _ _ _ _ E3).
+      unfold labs. cbn [flat_map labs1 tlab]. cbn [app]. repeat (rewrite <- !app_assoc; cbn [app]). reflexivity.
+  - inversion H; subst. reflexivity.
+  - inversion H; subst. reflexivity.
+Qed.
+
+Lemma npos_labs : forall x p, In p (npos x) -> In p (labs1 x).
+Proof.
+  assert (L : forall l, Forall (fun x => forall p, In p (npos x) -> In p (labs1 x)) l ->
+                        forall p, In p (flat_map npos l) -> In p (flat_map labs1 l)).
+  { intros l Hl p Hp. apply in_flat_map in Hp as (y & Hy & Hpy). apply in_flat_map. exists y. split; [exact Hy|].
+    rewrite Forall_forall in Hl. apply (Hl y Hy). exact Hpy. }
+  induction x as [i o|i e bt b IHb|i e bt b IHb|i el e bt t els IHt IHe] using instr_ind2; intros p Hp; cbn [npos labs1] in *.
+  - exact Hp.
+  - destruct Hp as [<-|[<-|Hp]]; [left; reflexivity|right; apply in_or_app; right; left; reflexivity|].
+    right. apply in_or_app. left. apply (L b IHb). exact Hp.
+  - destruct Hp as [<-|[<-|Hp]]; [left; reflexivity|right; apply in_or_app; right; left; reflexivity|].
+    right. apply in_or_app. left. apply (L b IHb). exact Hp.
+  - destruct Hp as [<-|[<-|Hp]]; [left; reflexivity| |].
+    + right. apply in_or_app. right. apply in_or_app. right. apply in_or_app. right. left. reflexivity.
+    + right. apply in_app_or in Hp as [Hp|Hp]; [|apply in_app_or in Hp as [Hp|Hp]].
+      * apply in_or_app. right. apply in_or_app. left. exact Hp.
+      * apply in_or_app. left. apply (L t IHt). exact Hp.
+      * apply in_or_app. right. apply in_or_app. right. apply in_or_app. left. apply (L els IHe). exact Hp.
+Qed.
+Lemma positions_labs t p : In p (positions t) -> In p (labs t).
+Proof.
+  unfold positions, labs. intros Hp. apply in_flat_map in Hp as (y & Hy & Hpy). apply in_flat_map.
+  exists y. split; [exact Hy|apply npos_labs; exact Hpy].
+Qed.
+
+(* the hypotheses of SimFnReal.sim_fn_real hold of every parsed body *)
+Theorem parse_body_positions ops x rest fe :
+  parse_body ops = Some (x :: rest, fe) -> head_at_0 x /\ ~ In 0 (positions rest) /\ fe <> 0.
+Proof.
+  unfold parse_body. intros H.
+  destruct (parse_seq (S (length ops)) 0 ops) as [[[[body tm] idx'] rest']|] eqn:E; [|discriminate H].
+  destruct tm as [e|e|]; try discriminate H. destruct rest'; [|discriminate H]. inversion H; subst.
+  pose proof (parse_seq_labs _ _ _ _ _ _ _ E) as L. cbn [tlab length seq] in L. rewrite app_nil_r in L.
+  unfold labs in L. cbn [flat_map] in L. fold (labs rest) in L. rewrite <- app_assoc in L.
+  assert (K : forall i tlx, labs1 x = i :: tlx ->
+              i = 0 /\ forall p, In p (tlx ++ labs rest ++ [fe]) -> p <> 0).
+  { intros i tlx Hx. rewrite Hx in L. destruct (length ops) as [|n]; [discriminate L|].
+    cbn [seq app] in L. inversion L as [[Hi Htl]]. split; [reflexivity|].
+    intros p Hp. rewrite <- ?Htl in Hp. apply in_seq in Hp. lia. }
+  assert (R : forall tlx, (forall p, In p (tlx ++ labs rest ++ [fe]) -> p <> 0) -> ~ In 0 (positions rest) /\ fe <> 0).
+  { intros tlx Hall. split.
+    - intros H0. apply positions_labs in H0. apply (Hall 0); [|reflexivity]. apply in_or_app. right. apply in_or_app. left. exact H0.
+    - apply Hall. apply in_or_app. right. apply in_or_app. right. left. reflexivity. }
+  destruct x as [i o|i e bt b|i e bt b|i el e bt t els]; cbn [labs1 head_at_0] in *.
+  - destruct (K i [] eq_refl) as [-> Hall]. split; [reflexivity|apply (R [] Hall)].
+  - destruct (K i _ eq_refl) as [-> Hall]. split; [|apply (R _ Hall)]. split; [reflexivity|]. split.
+    + apply Hall. apply in_or_app. left. apply in_or_app. right. left. reflexivity.
+    + intros H0. apply positions_labs in H0. apply (Hall 0); [|reflexivity]. apply in_or_app. left. apply in_or_app. left. exact H0.
+  - destruct (K i _ eq_refl) as [-> Hall]. split; [|apply (R _ Hall)]. split; [reflexivity|]. split.
+    + apply Hall. apply in_or_app. left. apply in_or_app. right. left. reflexivity.
+    + intros H0. apply positions_labs in H0. apply (Hall 0); [|reflexivity]. apply in_or_app. left. apply in_or_app. left. exact H0.
+  - destruct (K i _ eq_refl) as [-> Hall]. split; [|apply (R _ Hall)]. split; [reflexivity|]. repeat split.
+    + apply Hall. apply in_or_app. left. apply in_or_app. right. apply in_or_app. right. apply in_or_app. right. left. reflexivity.
+    + intros y ->. apply Hall. apply in_or_app. left. apply in_or_app. right. apply in_or_app. left. left. reflexivity.
+    + intros H0. apply positions_labs in H0. apply (Hall 0); [|reflexivity]. apply in_or_app. left. apply in_or_app. left. exact H0.
+    + intros H0. apply positions_labs in H0. apply (Hall 0); [|reflexivity]. apply in_or_app. left.
+      apply in_or_app. right. apply in_or_app. right. apply in_or_app. left. exact H0.
+Qed.
+
+(* ---------- function-level corollary for the real placement (SimFnReal.sim_fn_real); every position
+   hypothesis of that theorem is discharged from parse_body ---------- *)
+Corollary resolve_flatten_real_sim ftypes (F : nat -> flags) ops t fe entry X ty nres loc :
+  parse_body ops = Some (t, fe) -> nonrepl F -> forallb (okI F) t = true -> t <> [] ->
+  let Fe := with0 entry F in
+  pcode X ->
+  (forall i, pcode (bef Fe i) /\ pcode (aft Fe i) /\ pcode (be_ Fe i) /\ pcode (bx_ Fe i) /\ pcode (sa_ Fe i)) ->
+  neutral X -> neutral (bef Fe 0) -> arity ftypes (BtFunc ty) = (0, nres)%nat ->
+  exists tree : list instr,
+    (* the tree is exactly what the mirror model emits *)
+    emit (fst (resolve true entry X ty (flagged F 0 ops) loc)) = flat tree ++ [FEnd]
+    /\ (* and the plain interpreter on it reproduces every result of the specification interpreter *)
+    forall fuel c ob,
+      exec_fn ftypes Fe [] X true fuel t fe c = ob -> ob <> OFuel -> stack c = [] ->
+      (forall c1 n p c', exec ftypes (TreeLower.F0 Fe) X true fuel false t c1 = OBr n p c' -> n = 0%nat) ->
+      exists fuel' ob', exec_fn ftypes nof [] [] false fuel' tree 0 c = ob' /\ res_eq nres ob ob'.
+Proof.
+  intros Hp HNR Hok Hne Fe HX Hcode NX Npre Hty.
+  exists (real_tree Fe X ty t fe). split.
+  - apply (resolve_flatten_real F ops t fe entry X ty loc Hp HNR Hok Hne).
+  - intros fuel c ob H Hn Hs Hd.
+    destruct t as [|x rest]; [congruence|].
+    destruct (parse_body_positions _ _ _ _ Hp) as (Hh & Hr & Hfe).
+    apply (sim_fn_real ftypes Fe X HX Hcode NX Npre ty nres Hty fuel x rest fe c ob H Hn); auto.
+    apply okI_nbl. unfold Fe. rewrite okI_with0. exact Hok.
+Qed.
+
+(* ---------- CheckLow.model in the literal form CheckSem.tree_tie tests ---------- *)
+Definition tie_body (Fe : nat -> flags) (X : list fop) (ty : N) (t : list instr) (fe : nat) : list fop :=
+  match X with
+  | [] => flat (flat_map (lower Fe X) t) ++ f_before (Fe fe) ++ [FEnd]
+  | _ => f_before (Fe 0) ++ FBlock (BtFunc ty) :: (flat (flat_map (lower (TreeLower.F0 Fe) X) t) ++ f_before (Fe fe)) ++ [FEnd] ++ X ++ [FEnd]
+  end.
+
+Theorem model_flatten_real (c : lcase) t fe fb sp n n' :
+  parse_body (c_body c) = Some (t, fe) ->
+  apply_plan false (c_plan c) (map (fun o => (o, no_flags)) (c_body c)) false = Some (fb, sp) ->
+  forallb (fun x => nonreplacing (snd x)) fb = true ->
+  let Fe := with0 (c_entry c) (flags_fn fb) in
+  forallb (instr_no_branch_sa Fe n) t = true -> forallb (instr_no_d15 Fe n') t = true -> t <> [] ->
+  model c = Some (tie_body Fe (c_exit c) (c_exit_ty c) t fe, c_groups c).
+Proof.
+  intros Hp Ha Hnr Fe Hsa Hd Hne.
+  destruct (c_exit c) as [|x0 X0] eqn:EX.
+  - (* no exit probes: model_flatten_fn *)
+    destruct (model_flatten_fn c t fe fb sp n n' Hp Ha Hnr Hsa Hd ltac:(intros; exact Hne)) as (body & Hm & Hb).
+    rewrite EX in Hb. rewrite Hm, Hb, flat_fn_tree_nil, <- app_assoc. reflexivity.
+  - set (F := flags_fn fb) in *.
+    assert (Hops : map fst fb = c_body c).
+    { rewrite (apply_plan_ops _ _ _ _ _ _ Ha), map_map. cbn [fst]. apply map_id. }
+    destruct (parse_body_flat F _ _ _ Hp) as [Hfl Hpl].
+    assert (Hfb : fb = flagged F 0 (c_body c)) by (rewrite <- Hops; apply flagged_self).
+    assert (HNR : nonrepl F).
+    { intros i. unfold F, flags_fn.
+      destruct (nth_in_or_default i fb (FEnd, no_flags)) as [Hin| ->]; [|split; reflexivity].
+      rewrite forallb_forall in Hnr. specialize (Hnr _ Hin). unfold nonreplacing in Hnr.
+      apply andb_prop in Hnr as [H1 H2]. destruct (f_alt _); [discriminate|]. destruct (f_balt _); [discriminate|]. auto. }
+    assert (Hok : forallb (okI F) t = true).
+    { rewrite <- (okI_with0 (c_entry c)). fold Fe.
+      eapply (forallb_lift4 (instr_no_branch_sa Fe n) (instr_no_d15 Fe n') plainok); [|exact Hsa|exact Hd|exact Hpl].
+      apply Forall_forall. intros x _. apply checksem_okI. }
+    set (loc := mkLocals (c_nparams c) (c_numlocals c) (c_groups c)).
+    destruct (resolve_flatten_real F (c_body c) t fe (c_entry c) (x0 :: X0) (c_exit_ty c) loc Hp HNR Hok Hne) as [R1 R2].
+    rewrite <- Hfb in R1, R2. fold Fe in R1.
+    unfold model. rewrite (apply_plan_ma _ false), Ha, EX. fold loc.
+    replace (sp || negb (is_nil (c_entry c)) || negb (is_nil (x0 :: X0))) with true by (cbn [is_nil negb]; rewrite orb_true_r; reflexivity).
+    destruct (resolve true (c_entry c) (x0 :: X0) (c_exit_ty c) fb loc) as [r loc'] eqn:ER.
+    cbn [fst snd] in R1, R2. subst loc'. rewrite R1. f_equal. f_equal.
+    unfold real_tree, tie_body. rewrite flat_app, flat_ins, flat_fn_tree_cons by discriminate.
+    destruct t as [|x rest]; [congruence|].
+    destruct (parse_body_positions _ _ _ _ Hp) as (_ & _ & Hfe).
+    assert (E0 : f_before (TreeLower.F0 Fe fe) = f_before (Fe fe)).
+    { unfold TreeLower.F0. destruct (Nat.eqb_spec fe 0); [contradiction|reflexivity]. }
+    rewrite E0. unfold bef. rewrite <- !app_assoc. cbn [app]. rewrite <- !app_assoc. reflexivity.
+Qed.
+
+(* ---------- the second per-case tie follows from the first: whenever the observed body is the body the flat
+   mirror model computes, CheckSem.tree_tie accepts the case ---------- *)
+Lemma blockty_eqb_refl b : blockty_eqb b b = true.
+Proof. destruct b; cbn; try reflexivity; apply N.eqb_refl. Qed.
+Lemma list_nat_eqb_refl : forall l, list_eqb Nat.eqb l l = true.
+Proof. induction l as [|x l IH]; [reflexivity|]. cbn. rewrite Nat.eqb_refl, IH. reflexivity. Qed.
+Lemma fop_eqb_refl o : fop_eqb o o = true.
+Proof.
+  destruct o; cbn; try reflexivity;
+    rewrite ?blockty_eqb_refl, ?Nat.eqb_refl, ?N.eqb_refl, ?Z.eqb_refl, ?list_nat_eqb_refl; reflexivity.
+Qed.
+Lemma list_fop_eqb_refl : forall l, list_eqb fop_eqb l l = true.
+Proof. induction l as [|x l IH]; [reflexivity|]. cbn. rewrite fop_eqb_refl, IH. reflexivity. Qed.
+
+Theorem tree_tie_of_model (c : scase) b g g' :
+  model (s_l c) = Some (b, g) -> c_obs (s_l c) = Some (b, g') -> tree_tie c = true.
+Proof.
+  intros Hm Ho. unfold tree_tie.
+  destruct (parse_body (c_body (s_l c))) as [[t fe]|] eqn:Hp; [|reflexivity].
+  unfold flagged_body.
+  destruct (apply_plan false (c_plan (s_l c)) (map (fun o => (o, no_flags)) (c_body (s_l c))) false) as [[fb sp]|] eqn:Ha; [|reflexivity].
+  match goal with |- (if ?cond then _ else _) = true => destruct cond eqn:Hc; [|reflexivity] end.
+  apply andb_prop in Hc as [Hc Hd]. apply andb_prop in Hc as [Hc Hsa]. apply andb_prop in Hc as [Hnr Hne].
+  assert (Hne' : t <> []) by (destruct t; [discriminate Hne|discriminate]).
+  pose proof (model_flatten_real (s_l c) t fe fb sp _ _ Hp Ha Hnr Hsa Hd Hne') as M.
+  rewrite Hm in M. inversion M as [[Hb Hg]].
+  unfold obs_body. rewrite Ho, Hb. unfold tie_body.
+  destruct (c_exit (s_l c)); apply list_fop_eqb_refl.
+Qed.
+(* ------------------------------------------------------------------------------------------ *)
+(* Non-triviality: a nested block / if-else / loop with before, after, block-entry, block-exit and semantic-after
+   probes on every structural instruction lies in the fragment; and outside it (D15 shape) the equation is false. *)
+Definition exP (n : Z) : list fop := [FConst n; FDrop].
+Definition exF (i : nat) : flags :=
+  match i with
+  | 0 => mkFlags (exP 1) (exP 2) None (exP 3) (exP 4) (exP 5) None
+  | 1 => mkFlags (exP 11) (exP 12) None [] [] [] None
+  | 2 => mkFlags (exP 21) (exP 22) None (exP 23) (exP 24) (exP 25) None
+  | 3 => mkFlags (exP 31) (exP 32) None [] [] [] None
+  | 4 => mkFlags (exP 41) (exP 42) None (exP 43) (exP 44) (exP 45) None
+  | 5 => mkFlags (exP 51) (exP 52) None (exP 53) (exP 54) (exP 55) None
+  | 6 => mkFlags (exP 61) (exP 62) None [] [] [] None
+  | 7 => mkFlags (exP 71) (exP 72) None [] [] [] None
+  | 8 => mkFlags (exP 81) (exP 82) None [] [] [] None
+  | 9 => mkFlags (exP 91) (exP 92) None [] [] [] None
+  | 10 => mkFlags (exP 101) (exP 102) None [] [] [] None
+  | _ => no_flags
+  end.
+Definition exOps : list fop :=
+  [FBlock BtEmpty; FConst 7; FIf BtEmpty; FReturn; FElse; FLoop BtEmpty; FBr 0; FEnd; FEnd; FEnd; FEnd].
+Definition exT : list instr :=
+  [IBlock 0 9 BtEmpty [IPlain 1 (FConst 7);
+     IIf 2 (Some 4) 8 BtEmpty [IPlain 3 FReturn] [ILoop 5 7 BtEmpty [IPlain 6 (FBr 0)]]]].
+Example ex_parse : parse_body exOps = Some (exT, 10).
+Proof. reflexivity. Qed.
+Example ex_frag : frag exF exT.
+Proof.
+  split; [|reflexivity]. intros i. do 11 (destruct i as [|i]; [split; reflexivity|]). split; reflexivity.
+Qed.
+(* D15 shape: block-exit on an `if` whose then-arm contains a block; the pass emits the exit code at the inner end *)
+Definition exD15 : list instr := [IIf 2 None 8 BtEmpty [IBlock 5 7 BtEmpty []] []].
+Example resolve_flatten_false_on_D15 :
+  forallb (okI exF) exD15 = false /\
+  emit (fst (resolve true [] [] 0%N (flatF exF exD15 ++ [(FEnd, exF 10)]) (mkLocals 0 0 [])))
+  <> flat (flat_map (lower exF []) exD15) ++ f_before (exF 10) ++ [FEnd].
+Proof. split; [reflexivity|]. vm_compute. discriminate. Qed.
+
+Print Assumptions resolve_flatten.
+Print Assumptions parse_body_flat.
+Print Assumptions resolve_flatten_sim.
+Print Assumptions model_flatten.
+Print Assumptions resolve_flatten_fn.
+Print Assumptions resolve_flatten_fn_sim.
+Print Assumptions model_flatten_fn.
+Print Assumptions resolve_flatten_real.
+Print Assumptions parse_body_positions.
+Print Assumptions resolve_flatten_real_sim.
+Print Assumptions model_flatten_real.
+Print Assumptions tree_tie_of_model.
